@@ -580,3 +580,18 @@ _cases_without_life = cases
 def cases(rng, tier):
     yield from _cases_without_life(rng, tier)
     yield from _life.cases(rng, tier, {'addr', 'eui'})
+
+
+# ---- text beyond latin-1 (harness/unistream.py): Unicode digits, blanks and separator look-alikes substituted into valid texts must
+# be refused by the strict entry points in the prescribed way.  Outside the 8-bit alphabet of the model: its answer is "no discrepancy".
+from harness import unistream as _uni
+IMPL.update(_uni.IMPL)
+ORACLE.update(_uni.ORACLE)
+EXACT = tuple(EXACT) + ("uni",)
+RULE = RULE + " | text beyond latin-1 (Unicode digits / blanks / look-alikes in valid texts) at the strict entry points: bits4, bits6, bin4"
+_cases_without_uni = cases
+
+
+def cases(rng, tier):
+    yield from _cases_without_uni(rng, tier)
+    yield from _uni.cases(rng, tier, ('bits4', 'bits6', 'bin4'))
